@@ -24,6 +24,9 @@ def generate(rng, idx, tier, variant):
         spec = S.gen_spec(rng, 'solver_faults', tier)
         spec.pop('mixins', None)
         pokes = []
+        if rng.random() < 0.2:
+            # the extension mixins stacked on the model class in any order: solve() must still be the loop
+            spec['mixins'] = rng.sample(['alias', 'tracer', 'pandas', 'progress'], rng.randint(1, 4))
     np_err = rng.choice(['default'] * 6 + ['ignore', 'warn', 'raise', 'raise'])
     spec['_allow_huge'] = np_err != 'raise'
     n, lags, leads = spec['span']['n'], spec['lags'], spec['leads']
@@ -139,6 +142,11 @@ def generate(rng, idx, tier, variant):
                 'interrupt': interrupt,
             }
         )
+        mix = spec.get('mixins') or []
+        if 'progress' in mix:
+            ops[-1]['pb'] = rng.choice([None, False, True, True])
+        if 'tracer' in mix and rng.random() < 0.5:
+            ops[-1]['trace'] = True
     spec.pop('_allow_huge', None)
     return {'spec': spec, 'pokes': pokes, 'ops': ops, 'np_err': np_err}
 
@@ -156,6 +164,23 @@ def _label(spec, span, x, form):
     if x == '?dup':
         return span[1].item() if hasattr(span[1], 'item') else span[1]  # occurs twice in an 'np_dup' span
     return spans.label_forms(spec['span'], span, x, form)
+
+
+def _snap(m):
+    """The model's series. The tracer's own record (an object array of Trace logs, one per period) is compared by content
+    where tracing is on, not cell by cell."""
+    s_ = ref_solver.snapshot(m)
+    s_.pop('trace', None)
+    return s_
+
+
+def _traces(m):
+    from ..obs import obs_trace
+
+    arr = m.__dict__.get('_trace')
+    if arr is None:
+        return None
+    return [obs_trace(x) if type(x).__name__ == 'Trace' else None for x in arr.tolist()]
 
 
 def _apply_pokes(m, pokes, n):
@@ -239,14 +264,22 @@ def execute(schedule, ctx):
         opts = op['opts']
         start_l = _label(spec, span, op['start'], op.get('sform', 0)) if n else None
         end_l = _label(spec, span, op['end'], op.get('eform', 0)) if n else None
-        snap = ref_solver.snapshot(A)
+        snap = _snap(A)
         for m in (A, B, C, R):
             probes.get_ctl(m).arm(op.get('plan'))
         intr = op.get('interrupt')
 
         # ---- A: the multi-period call (possibly interrupted)
+        extra = {'trace': True, 'reset': True} if op.get('trace') else {}
+        extra_A = dict(extra)
+        if op.get('pb') is not None:
+            extra_A['progress_bar'] = op['pb']  # consumed by the period iterator of solve(); the loops have none
+            ctx.probe('progress-bar-keyword:' + str(op['pb']))
+        if extra:
+            ctx.probe('traced-solve')
+
         def call_A():
-            return A.solve(start=start_l, end=end_l, **S.solver_kwargs(opts))
+            return A.solve(start=start_l, end=end_l, **S.solver_kwargs(opts), **extra_A)
 
         lb = None
         if intr and 'seam' in intr:
@@ -258,7 +291,7 @@ def execute(schedule, ctx):
             outA = _outcome(lambda: lb.run(call_A))
         else:
             outA = _outcome(call_A)
-        postA = ref_solver.snapshot(A)
+        postA = _snap(A)
         if outA['kind'] == 'interrupt':
             # An asynchronous exception can land on the bytecode boundary just before a `with` block's normal-exit call
             # (CPython leaves that window open for KeyboardInterrupt too), so fsic's catch_warnings block may not have
@@ -314,11 +347,11 @@ def execute(schedule, ctx):
             ctx.probe('start==end')
 
         # ---- R: the loop run to completion of whatever it can (no interruption): crash-consistency reference
-        outR, flagsR, failR = _loop(R, positions, opts, None, 'solve_t', spec, span, judge=(ctx, endo, check, exo))
+        outR, flagsR, failR = _loop(R, positions, opts, None, 'solve_t', spec, span, judge=(ctx, endo, check, exo), extra=extra)
         # ---- B, C: the loops, with the same interruption budget where it is a seam budget
-        outB, flagsB, failB = _loop(B, positions, opts, intr if intr and 'seam' in intr else None, 'solve_t', spec, span)
-        outC, flagsC, failC = _loop(C, positions, opts, intr if intr and 'seam' in intr else None, 'solve_period', spec, span)
-        postB, postC, postR = ref_solver.snapshot(B), ref_solver.snapshot(C), ref_solver.snapshot(R)
+        outB, flagsB, failB = _loop(B, positions, opts, intr if intr and 'seam' in intr else None, 'solve_t', spec, span, extra=extra)
+        outC, flagsC, failC = _loop(C, positions, opts, intr if intr and 'seam' in intr else None, 'solve_period', spec, span, extra=extra)
+        postB, postC, postR = _snap(B), _snap(C), _snap(R)
 
         line_intr = outA['kind'] == 'interrupt' and 'line' in intr
         unique_labels = spec['span']['type'] != 'list_dup_inner'
@@ -336,6 +369,13 @@ def execute(schedule, ctx):
             la = [(r['hook'], r['tn'], r['k'], r['iteration']) for r in probes.get_ctl(A).log]
             lb_ = [(r['hook'], r['tn'], r['k'], r['iteration']) for r in probes.get_ctl(B).log]
             chk('twin/same-seam-history', la == lb_, {'solve': la[:12], 'loop': lb_[:12]})
+            if extra and outA['kind'] != 'interrupt':
+                # the keywords solve() passes on reach every period: what was traced is what the loop traces
+                # (each call rewrites the records of its own periods - reset=True - so only those are compared: an
+                # earlier interrupted call may have left the parties' other records apart)
+                ta, tb = _traces(A), _traces(B)
+                done = [t for t in positions if failB is None or t <= failB]  # (the periods the call got to)
+                chk('twin/traces-solve-vs-loop', [ta[t] for t in done] == [tb[t] for t in done], {'positions': done})
             if outA['kind'] == 'return':
                 v = outA['value']
                 ok_shape = isinstance(v, tuple) and len(v) == 3
@@ -388,7 +428,8 @@ def execute(schedule, ctx):
                 m.__dict__['_' + nm][:] = arr
 
 
-def _loop(m, positions, opts, intr, how, spec, span, judge=None):
+def _loop(m, positions, opts, intr, how, spec, span, judge=None, extra=None):
+    extra = extra or {}
     ctl = probes.get_ctl(m)
     ctl.budget = intr['seam'] if intr else None
     flags = []
@@ -399,14 +440,14 @@ def _loop(m, positions, opts, intr, how, spec, span, judge=None):
             # "the failing period carries the status its policy prescribes": each period of the reference loop is judged
             # by the per-period state machine (tagged C05 here; C02/C06 own the single-period clauses)
             ctx, endo, check, exo = judge
-            snap = ref_solver.snapshot(m)
+            snap = _snap(m)
             n0 = len(ctl.log)
             nr0 = len(ctl.raised)
-            o = _outcome(lambda: m.solve_t(t, **S.solver_kwargs(opts)))
+            o = _outcome(lambda: m.solve_t(t, **S.solver_kwargs(opts), **extra))
             if o['kind'] != 'interrupt':
                 call = {
                     'opts': opts, 'n': len(span), 't': t, 'endo': endo, 'check': check, 'exo': exo, 'snap': snap,
-                    'post': ref_solver.snapshot(m), 'log': ctl.log[n0:], 'raised': ctl.raised[nr0:],
+                    'post': _snap(m), 'log': ctl.log[n0:], 'raised': ctl.raised[nr0:],
                     'outcome': {'kind': 'return', 'value': o['value']} if o['kind'] == 'return' else {'kind': 'raise', 'exc': o['exc']},
                     'scripted': spec['kind'] == 'scripted', 'feasible': spec['lags'] <= t <= len(span) - 1 - spec['leads'], 'np_err': ctx.np_err,
                 }
@@ -418,9 +459,9 @@ def _loop(m, positions, opts, intr, how, spec, span, judge=None):
             flags.append(bool(o['value']))
             continue
         if how == 'solve_t':
-            o = _outcome(lambda: m.solve_t(t, **S.solver_kwargs(opts)))
+            o = _outcome(lambda: m.solve_t(t, **S.solver_kwargs(opts), **extra))
         else:
-            o = _outcome(lambda: m.solve_period(span[t], **S.solver_kwargs(opts)))
+            o = _outcome(lambda: m.solve_period(span[t], **S.solver_kwargs(opts), **extra))
         if o['kind'] != 'return':
             out = o
             fail = t
